@@ -511,6 +511,20 @@ fn run_events(w: &World, sys: &Sys, mut snap: Value, evs: &[Value], events: &mut
     snap
 }
 
+/// run_isolated serialises its per-case result unbuffered (one write per token), which is far too slow for event
+/// lists: the events of a case go, as one buffered line {"i", "events"}, to the side file <out>.events and only a
+/// count is handed back.  A case that dies leaves no line there (the supervisor's synthetic record says why).
+fn emit(out_path: &str, i: usize, events: Vec<Value>) -> Value {
+    use std::io::Write;
+    let f = std::fs::OpenOptions::new().create(true).append(true).open(format!("{}.events", out_path)).expect("open side file");
+    let mut w = std::io::BufWriter::with_capacity(1 << 20, f);
+    let n = events.len();
+    serde_json::to_writer(&mut w, &json!({"i": i, "events": events})).unwrap();
+    w.write_all(b"\n").unwrap();
+    w.flush().unwrap();
+    json!({"n": n})
+}
+
 // ---------------------------------------------------------------------------------------------- replay of generated cases
 fn parse_from(args: &[String]) -> usize {
     match args.iter().position(|a| a == "--from") {
@@ -521,7 +535,7 @@ fn parse_from(args: &[String]) -> usize {
 
 fn replay_mode(cases_path: &str, out_path: &str, from: usize) {
     let cases = read_ndjson(cases_path);
-    run_isolated(&cases, from, out_path, |_, c| {
+    run_isolated(&cases, from, out_path, |i, c| {
         let game = c["game"].as_str().unwrap();
         let lang = c["lang"].as_str().unwrap();
         let evs = c["events"].as_array().unwrap();
@@ -554,7 +568,7 @@ fn replay_mode(cases_path: &str, out_path: &str, from: usize) {
                 }
             }
         }
-        json!({"events": events})
+        emit(out_path, i, events)
     });
 }
 
@@ -848,7 +862,7 @@ fn record_mode(out_path: &str, runs: usize, len: usize, from: usize) {
             } else {
                 events.push(json!({"op": "new", "game": g, "lang": lang, "res": ok(json!([])), "same": true, "post": []}));
             }
-            return json!({"events": events});
+            return emit(out_path, i, events);
         }
         let game = *rng.pick(&GAMES);
         let lang = *rng.pick(&LANGS);
@@ -860,7 +874,7 @@ fn record_mode(out_path: &str, runs: usize, len: usize, from: usize) {
             Ok(s) => s,
             Err(res) => {
                 events.push(json!({"op": "new", "game": game, "lang": lang, "res": res, "same": true, "post": []}));
-                return json!({"events": events});
+                return emit(out_path, i, events);
             }
         };
         events.push(json!({"op": "reset", "game": game, "lang": lang, "res": ok(json!([])), "same": false, "post": snap.clone()}));
@@ -925,7 +939,7 @@ fn record_mode(out_path: &str, runs: usize, len: usize, from: usize) {
             };
             snap = run_events(&w, &sys, snap, std::slice::from_ref(&ev), &mut events);
         }
-        json!({"events": events})
+        emit(out_path, i, events)
     });
 }
 
